@@ -462,8 +462,9 @@ def r7_isqrt(text, base_line=0):
     log = []
     pat = re.compile(r"\(\s*\*?\s*(\w+)\s+as\s+f32\s*\)\s*\.sqrt\(\)\s+as\s+usize")
     for m in pat.finditer(text):
-        log.append("R7 line %d: `%s` -> `isqrt_f32(%s)`" % (base_line + text.count("\n", 0, m.start()),
-                                                           " ".join(m.group(0).split()), m.group(1)))
+        log.append("R7 line %d: `%s` -> `isqrt_f32(%s%s)`" % (base_line + text.count("\n", 0, m.start()),
+                                                           " ".join(m.group(0).split()),
+                                                           "*" if "*" in m.group(0).split("as")[0] else "", m.group(1)))
 
     def rep(m):
         star = "*" if "*" in m.group(0).split("as")[0] else ""
@@ -785,6 +786,8 @@ def generate(template_path, repo, canary=False, contracts_dir=None, exclude=None
         d["clauses"] = len(re.findall(r"//@ob\s+\S+", seg))
         m = re.search(r"\bfn\s+(\w+)", seg)
         d["fn"] = m.group(1) if m else None
+        mi = re.search(r"\bimpl\s+(\w+)\s*\{", seg[:m.start()] if m else seg)
+        d["qual"] = ("%s::%s" % (mi.group(1), d["fn"])) if (mi and m) else d["fn"]
     return G
 
 
